@@ -14,6 +14,13 @@ again.
 """
 
 DEFS = ['default', 'vf_sine', 'vf_pad', 'x']
+# definitions that are really add()ed (vf/c17_exec.py:define_seti_defs): the
+# control layout in declaration order, arrayed controls followed by others
+SETI_DEFS = {
+    'vf_seti_a': [('out', 1), ('freqs', 3), ('amp', 1), ('pan', 1)],
+    'vf_seti_b': [('freqs', 2), ('amps', 4), ('gate', 1)],
+    'vf_seti_c': [('a', 1), ('arr', 5), ('b', 3), ('c', 1)],
+}
 CTL_NAMES = ['freq', 'amp', 'gate', 'out', 'in', 'bufnum', 'pan', 'freqs', 'bus']
 ACTIONS = ['addToHead', 'addToTail', 'addBefore', 'addAfter', 'addReplace',
            'head', 'tail', 'before', 'after', 'replace', 'h', 't', 'b', 'a', 'r',
@@ -179,7 +186,8 @@ def gen_op(rng, pool, in_bind, stats, multi_client, nrt=True):
         ctor = rng.choices(['init', 'new_paused', 'grain', 'after', 'before',
                             'head', 'tail', 'replace'],
                            [10, 2, 1.5, 1, 1, 1, 1, 1.5])[0]
-        op = {'op': 'synth', 'ctor': ctor, 'def': rng.choice(DEFS),
+        op = {'op': 'synth', 'ctor': ctor,
+              'def': rng.choice(DEFS) if rng.random() < 0.75 else rng.choice(sorted(SETI_DEFS)),
               'args': synth_args(rng, pool, stats, in_bind)}
         if isinstance(op['args'], dict) and '$tuple_args' in op['args']:
             op['args'] = op['args']['$tuple_args']
@@ -201,7 +209,7 @@ def gen_op(rng, pool, in_bind, stats, multi_client, nrt=True):
         if ctor != 'grain':
             h = pool.new('n')
             op['out'] = h
-            pool.nodes[h] = {'kind': 'synth', 'state': 'live'}
+            pool.nodes[h] = {'kind': 'synth', 'state': 'live', 'def': op['def']}
             pool.created_in_block.append(h)
             replaced = (ctor == 'replace') or (ctor in ('init', 'new_paused') and
                                               op['action'] in ('addReplace', 'replace', 'r', 4))
@@ -261,6 +269,8 @@ def gen_op(rng, pool, in_bind, stats, multi_client, nrt=True):
             ms += ['free_all', 'deep_free', 'dump_tree']
         else:
             ms += ['get', 'getn']
+            if pool.nodes[h].get('def') in SETI_DEFS:
+                ms += ['seti'] * 8
         m = rng.choice(ms)
         op = {'op': 'node', 'm': m, 'h': h}
         if m == 'free':
@@ -307,6 +317,25 @@ def gen_op(rng, pool, in_bind, stats, multi_client, nrt=True):
                 op['t'] = None      # the default group of the node's own server
         elif m == 'dump_tree':
             op['controls'] = rng.choice([True, False])
+        elif m == 'seti':
+            layout = SETI_DEFS[pool.nodes[h]['def']]
+            op['def'] = pool.nodes[h]['def']
+            a = []
+            for _ in range(rng.randint(1, 3)):
+                if rng.random() < 0.1:
+                    name, size = 'nope', 3
+                else:
+                    arrs = [p for p in layout if p[1] > 1]
+                    name, size = rng.choice(arrs if rng.random() < 0.85 else layout)
+                off = rng.choice([-1, 0, 0, 1, size - 1, size - 1, size, size,
+                                  size + 1, 10 ** 6])
+                if rng.random() < 0.6:
+                    val = number(rng)
+                else:
+                    val = [number(rng) for _ in range(rng.randint(1, size + 2))]
+                a += [name, off, val]
+            op['args'] = a
+            stats['seti'] = True
         elif m == 'get':
             op['index'] = ctl(rng)
         elif m == 'getn':
